@@ -125,4 +125,110 @@ def dateParse (ds zone : List Nat) (rel : Nat) : Date :=
 /-- write, then read -/
 def dateRoundTrip (d : Date) : Date := dateParse (dateDigits d) (zoneChars d) d.rel
 
+/-! ## Destinations (`object/types.rs`: `Dest::from_primitive`, `Dest::from_array`, `impl ObjectWrite for Dest`) -/
+
+/-- `DestView`; `f32` values as bit patterns -/
+inductive DestView where
+  | xyz (left top : Option Nat) (zoom : Nat)
+  | fit
+  | fitH (top : Nat)
+  | fitV (left : Nat)
+  | fitR (left bottom right top : Nat)
+  | fitB
+  | fitBH (top : Nat)
+  deriving DecidableEq, Repr
+
+/-- `Dest { page: Option<Ref<Page>>, view }` -/
+structure DestV where
+  page : Option (Nat × Nat)
+  view : DestView
+  deriving DecidableEq, Repr
+
+def optNumber : Option Nat → Prim
+  | none => .null
+  | some b => .real b
+
+/-- `Dest::to_primitive` -/
+def writeDest (d : DestV) : Prim :=
+  let page : Prim := match d.page with
+    | none => .null
+    | some (i, g) => .ref i g
+  .arr (page :: match d.view with
+    | .xyz l t z => [.name "XYZ", optNumber l, optNumber t, .real z]
+    | .fit => [.name "Fit"]
+    | .fitH t => [.name "FitH", .real t]
+    | .fitV l => [.name "FitV", .real l]
+    | .fitR l b r t => [.name "FitR", .real l, .real b, .real r, .real t]
+    | .fitB => [.name "FitB"]
+    | .fitBH t => [.name "FitBH", .real t])
+
+/-- `match *try_opt!(array.get(i)) { Null => None, Integer(n) => Some(n as f32), Number(f) => Some(f), _ => Err }` -/
+def optCoord : Option Prim → R (Option Nat)
+  | none => .error .other
+  | some .null => .ok none
+  | some (.int n) => .ok (some (f32OfInt n))
+  | some (.real b) => .ok (some b)
+  | some _ => .error .other
+
+/-- `try_opt!(array.get(i)).as_number()?` -/
+def coord : Option Prim → R Nat
+  | some (.int n) => .ok (f32OfInt n)
+  | some (.real b) => .ok b
+  | _ => .error .other
+
+/-- the zoom of `/XYZ`: absent and `null` are 0.0 -/
+def zoomOf : Option Prim → R Nat
+  | none => .ok 0
+  | some .null => .ok 0
+  | some (.int n) => .ok (f32OfInt n)
+  | some (.real b) => .ok b
+  | some _ => .error .other
+
+/-- the page of a destination: `Option<Ref<Page>>::from_primitive(array[0])` -/
+def destPage (tolerant : Bool) : Option Prim → R (Option (Nat × Nat))
+  | none => .error .other
+  | some .null => .ok none
+  | some (.ref i g) => .ok (some (i, g))
+  | some _ => if tolerant then .ok none else .error .other
+
+/-- `Dest::from_array` -/
+def readDestArr (tolerant : Bool) (xs : List Prim) : R DestV :=
+  match destPage tolerant xs[0]? with
+  | .error e => .error e
+  | .ok page =>
+    match (xs[1]? : Option Prim) with
+    | some (Prim.name kind) =>
+      let view : R DestView :=
+        if kind = "XYZ" then
+          match optCoord xs[2]?, optCoord xs[3]?, zoomOf xs[4]? with
+          | .ok l, .ok t, .ok z => .ok (.xyz l t z)
+          | _, _, _ => .error .other
+        else if kind = "Fit" then .ok .fit
+        else if kind = "FitH" then (match coord xs[2]? with | .ok t => .ok (.fitH t) | .error e => .error e)
+        else if kind = "FitV" then (match coord xs[2]? with | .ok l => .ok (.fitV l) | .error e => .error e)
+        else if kind = "FitR" then
+          match coord xs[2]?, coord xs[3]?, coord xs[4]?, coord xs[5]? with
+          | .ok l, .ok b, .ok r, .ok t => .ok (.fitR l b r t)
+          | _, _, _, _ => .error .other
+        else if kind = "FitB" then .ok .fitB
+        else if kind = "FitBH" then (match coord xs[2]? with | .ok t => .ok (.fitBH t) | .error e => .error e)
+        else .error .other
+      match view with
+      | .ok v => .ok { page := page, view := v }
+      | .error e => .error e
+    | _ => .error .other
+
+/-- `Dest::from_primitive`: resolve a reference once, take `/D` of a dictionary, `t!(p.as_array())` -/
+def readDest (env : Env) (p : Prim) : R DestV :=
+  match resolve1 env p with
+  | .error e => .error e
+  | .ok q =>
+    let q' : R Prim := match q with
+      | .dict d => (match dget "D" d with | some x => .ok x | none => .error (.missingEntry "D"))
+      | x => .ok x
+    match q' with
+    | .error e => .error e
+    | .ok (.arr xs) => readDestArr env.tolerant xs
+    | .ok _ => .error (.tryE .other)
+
 end Derive
